@@ -2,6 +2,7 @@ import struct
 import numpy as np
 
 from .read import SgzReader
+from .version import SeismicZfpVersion
 from .utils import pad, int_to_bytes, np_float_to_bytes, np_float_to_bytes_signed, coord_to_index
 from .sgzconstants import DISK_BLOCK_BYTES, SEGY_TEXT_HEADER_BYTES
 
@@ -191,4 +192,8 @@ class SgzCropper(SgzReader):
                 header_array = self.variant_headers[k].reshape((self.n_ilines, self.n_xlines)).astype(np.int32)
                 cropped_header_array = header_array[iline_index_range[0]:iline_index_range[1],
                                                     xline_index_range[0]:xline_index_range[1]]
-                new_sgz_file.write(cropped_header_array.flatten().tobytes())
+                header_bytes = cropped_header_array.flatten().tobytes()
+                if self.file_version > SeismicZfpVersion("0.2.1"):
+                    # Pad to 512-bytes, as readers expect for files of this version
+                    header_bytes += bytes(-len(header_bytes) % 512)
+                new_sgz_file.write(header_bytes)
